@@ -190,3 +190,32 @@ fn c13_literal_tag_equality() {
     term_pair!(x, y, 4, 2); term_pair!(x, y, 4, 3); term_pair!(x, y, 4, 4);
     kani::cover!(x == y);
 }
+
+fn mk_lang(b: u8, tag: u8) -> Term { with_s1(b, |s| with_s1(tag, |t| Term::lang_literal(s, t))) }
+
+//@ property: C13
+//@ tier: quick
+//@ cap_s: 600
+//@ mem_gb: 10
+//@ encodes: Term::eq / Literal::eq on two language-tagged literals, Triple::eq and TriplePattern::matches on an object-bound pattern over them
+//@ symbolic: the one-byte lexical form and the one-byte (lower-case ASCII letter) language tag of each of two literals
+//@ bound: one-byte lexical forms and tags (the rdf:langString datatype IRI compared is 53 bytes: unwind 60)
+//@ oracle: two language-tagged literals are the same term exactly when lexical form AND tag are equal; a pattern whose object is one of them matches a triple holding the other exactly in that case
+#[kani::proof]
+#[kani::unwind(60)]
+fn c13_language_tags_distinguish_terms() {
+    let (x, y, tx, ty): (u8, u8, u8, u8) = (kani::any(), kani::any(), kani::any(), kani::any());
+    kani::assume(x < 128 && y < 128);
+    kani::assume(tx >= b'a' && tx <= b'z' && ty >= b'a' && ty <= b'z');
+    let (a, b) = (mk_lang(x, tx), mk_lang(y, ty));
+    let same = x == y && tx == ty;
+    assert!(a == a && b == b);
+    assert!((a == b) == same, "language-tagged literals: equality differs from (same lexical form and same tag)");
+    assert!((b == a) == same);
+    let t = Triple::new(subj(0), pred(0), a);
+    let pat = TriplePattern { subject: None, predicate: None, object: Some(b) };
+    assert!(pat.matches(&t) == same, "object-bound pattern matches a literal with another language tag");
+    kani::cover!(x == y && tx != ty);
+    kani::cover!(same);
+    std::mem::forget((t, pat));
+}
